@@ -173,7 +173,12 @@ theorem run_replay (p : Prog) : Replays p := by
   | draw n k ih => exact replays_draw n k ih
   | group l s b d k ihb ihk => exact replays_group l s b d k ihb ihk
   | catchInv b k ihb ihk => exact replays_catchInv b k ihb ihk
-  | errorf m k ih => intro src ts xs h; simp only [Prog.run] at h ⊢; exact ih src _ xs h
+  | errorf m k ih =>
+    intro src ts xs h
+    simp only [Prog.run] at h ⊢
+    simp only [after_overran, Bool.false_or] at h
+    simp only [after_used, List.nil_append]
+    rw [ih src _ xs h]; rfl
   | failOnError site k ih =>
     intro src ts xs h
     simp only [Prog.run] at h ⊢
